@@ -35,6 +35,7 @@ EXPLANATION = (
     "variable's own column index, one entry per requested key.  NOT decided: HiGHS' handling of the rows, numerical tolerance."
     ' (R6, round 3) no public getter rebuilds indices from variable names (known finding: get_variable_values); (R7) bounds of integer variables are rounded inwards.'
     ' (R5, round 4) the i-th value handed to HiGHS belongs to the i-th column index: values are read from the dict through the index sequence, or the two arrays are the parallel queues.'
+    ' (R3, benign 4) the one-hot row of the piecewise helper sums over the index set of the selector family (structural, no text match).'
 )
 DECIDED = ["exactness of the binary*continuous product helper (soundness + completeness, algebraic proof)",
            "structure and bit-count sufficiency of the integer*continuous helper",
